@@ -38,6 +38,7 @@ type config struct {
 	batchSize int
 	jobs      int
 	verbose   bool
+	race      bool
 }
 
 // progState is everything progrun learns about one program.
@@ -94,6 +95,7 @@ func main() {
 	flag.IntVar(&c.batchSize, "batch", 60, "programs per batch package")
 	flag.IntVar(&c.jobs, "jobs", runtime.NumCPU(), "parallel subprocesses")
 	flag.BoolVar(&c.verbose, "v", false, "verbose progress on stderr")
+	flag.BoolVar(&c.race, "race", false, "build the runners with the race detector (a report is a crash observation)")
 	flag.Parse()
 	if c.out == "" {
 		fmt.Fprintln(os.Stderr, "progrun: -out is required")
